@@ -77,6 +77,13 @@ def gen(rng, tier):
         elif r2 < 0.16:
             case['layout'] = 'alt'
         yield case
+    for _ in range(1 if tier == 'quick' else 6):                   # one contingency cell with far more than 46341 frames
+        N = rng.choice([60000, 100000])
+        a, b = rng.sample([0, 1, 3, 7], 2)
+        f1 = [a] * (N - N // 20) + [b] * (N // 20)
+        style = rng.choice(['same', 'refine'])
+        f2 = [v + 10 for v in f1] if style == 'same' else [v + 10 + (i % 2 if v == b else 0) for i, v in enumerate(f1)]
+        yield {'t1': [f1[:N // 3], f1[N // 3:]], 't2': [f2], 'method': rng.choice(['symmetric', 'directed']), 'mal': None, 'alpha': 'dominant-cell'}
     for _ in range(G.budget(30) if tier == 'quick' else 300):      # narrow integer types, many index-like states
         k1, k2 = rng.choice([(11, 12), (12, 11), (12, 12), (12, 12), (10, 12)])
         base = rng.choice([0, 1])
